@@ -91,6 +91,11 @@ pub fn enforce_constraints<E: FieldElement<BaseField = Felt>>(
         frame.memory_flag(false),
         frame.memory_flag(true),
     );
+    memory::enforce_first_row_constraint(
+        frame,
+        &mut result[constraint_offset..],
+        frame.memory_first_row_flag(),
+    );
 }
 
 // TRANSITION CONSTRAINT HELPERS
@@ -146,6 +151,10 @@ trait EvaluationFrameExt<E: FieldElement> {
     /// Flag to indicate whether the frame is in the bitwise portion of the Chiplets trace.
     fn bitwise_flag(&self) -> E;
 
+    /// Flag to indicate that the next row is the first row of the memory portion of the Chiplets
+    /// trace (i.e., the current row is a hasher or a bitwise row and the next row is a memory row).
+    fn memory_first_row_flag(&self) -> E;
+
     /// Flag to indicate whether the frame is in the memory portion of the Chiplets trace.
     /// When `include_last_row` is true, the memory flag is true for every row where the memory
     /// selectors are set. When false, the last row is excluded. When this flag is used for
@@ -177,6 +186,14 @@ impl<E: FieldElement> EvaluationFrameExt<E> for &EvaluationFrame<E> {
         // the last row of the bitwise section is included: it closes an 8-row cycle, where the
         // periodic column k1 turns off every constraint that involves the next row.
         self.s(0) * binary_not(self.s(1))
+    }
+
+    #[inline(always)]
+    fn memory_first_row_flag(&self) -> E {
+        binary_not(self.s(0) * self.s(1))
+            * self.s_next(0)
+            * self.s_next(1)
+            * binary_not(self.s_next(2))
     }
 
     #[inline(always)]
